@@ -274,8 +274,33 @@ func sectGuard(fn *ssa.Function, b *ssa.BasicBlock) (under bool, value bool) {
 
 func r11_2(c *Ctx, r *Report) {
 	const rule = "R11.2"
-	r.rule(rule, "Sect switch in EightChar. Inside methods of *EightChar every value obtained from a day-pillar accessor of *Lunar is the late-rat variant (…Exact2) under sect == 2 and the early-rat variant (…Exact) otherwise: the call sits in the matching branch of a test of eightChar.sect, or it is the early-rat default that is only merged (phi) with the late-rat value computed under sect == 2. The plain day pillar and unconditional uses are violations.")
+	r.rule(rule, "Sect switch in EightChar. Every method of *EightChar that consults a day-pillar accessor of *Lunar is followed by the evaluator with the accessors as abstract inputs (early-rat, late-rat and plain variants get distinguishable values; helpers inline): under sect == 2 its result must not change when the early-rat or the plain value changes, under sect == 1 it must not change when the late-rat or the plain value changes (any other value, including the one a new chart starts with, counts as 2) — the attribute is computed from the day pillar the chart shows. Where the evaluator cannot follow a method (a search loop), the structural form is required instead: each accessor call sits in the matching branch of a test of the sect field, or is the early-rat default that is only merged with the late-rat value computed under sect == 2.")
+	n := 0
 	for _, fn := range c.methodsOf("calendar", "EightChar") {
+		uses := false
+		for _, f := range withHelpers(c, fn) {
+			for _, b := range f.Blocks {
+				for _, ins := range b.Instrs {
+					if call, ok := ins.(*ssa.Call); ok {
+						if callee := call.Common().StaticCallee(); callee != nil && callee.Signature.Recv() != nil && structName(callee.Signature.Recv().Type()) == "Lunar" && dayAccessor.MatchString(callee.Name()) {
+							uses = true
+						}
+					}
+				}
+			}
+		}
+		// methods that reach the accessors only through other exported EightChar methods are judged through those
+		if !uses {
+			continue
+		}
+		n++
+		construct := fname(fn) + " follows the chart's sect"
+		if msg, decided := sectNonInterference(c, fn); decided {
+			r.check(msg == "", rule, construct, c.fnPos(fn), "followed for sect 1 and 2 with varied day-pillar variants; "+msg)
+			continue
+		}
+		// structural fallback
+		var bad []string
 		for _, b := range fn.Blocks {
 			for _, ins := range b.Instrs {
 				call, ok := ins.(*ssa.Call)
@@ -291,24 +316,120 @@ func r11_2(c *Ctx, r *Report) {
 					continue
 				}
 				variant := m[2]
-				construct := fmt.Sprintf("%s calls Lunar.%s", fname(fn), callee.Name())
 				under, val := sectGuard(fn, b)
 				switch {
 				case variant == "":
-					r.bad(rule, construct, c.pos(call.Pos()), "the plain day pillar (no 23:00 convention) is used for an eight-character attribute; it must be the variant selected by the chart's sect")
-				case variant == "Exact2" && under && val:
-					r.ok(rule, construct, c.pos(call.Pos()), "late-rat variant under sect == 2")
-				case variant == "Exact" && under && !val:
-					r.ok(rule, construct, c.pos(call.Pos()), "early-rat variant under sect != 2")
+					bad = append(bad, callee.Name()+": the plain day pillar (no 23:00 convention) is used")
+				case variant == "Exact2" && under && val, variant == "Exact" && under && !val:
 				case variant == "Exact" && !under && onlyMergedWithSect2(fn, call):
-					r.ok(rule, construct, c.pos(call.Pos()), "early-rat default, overridden by the late-rat value under sect == 2 (used only through that merge)")
 				default:
-					r.bad(rule, construct, c.pos(call.Pos()), fmt.Sprintf("day-pillar variant %q is used regardless of (or against) the chart's sect: under the other convention the attribute is computed from a different pillar than the one the chart shows", variant))
+					bad = append(bad, fmt.Sprintf("%s: variant %q is used regardless of (or against) the chart's sect", callee.Name(), variant))
+				}
+			}
+		}
+		r.check(len(bad) == 0, rule, construct, c.fnPos(fn), fmt.Sprintf("structural form (not followed by the evaluator); deviations: %v", bad))
+	}
+	r.check(n >= 5, rule, "EightChar methods that consult the day pillar", "-", fmt.Sprintf("%d methods (floor 5)", n))
+}
+
+// sectNonInterference follows fn for sect 1 and 2 while varying the values of the day-pillar
+// variants. decided=false when the evaluator cannot follow the method.
+func sectNonInterference(c *Ctx, fn *ssa.Function) (msg string, decided bool) {
+	recv := ssa.Value(fn.Params[0])
+	type vals struct{ e, e2, p int }
+	strs := []string{"甲子", "乙丑", "丙寅", "丁卯", "戊辰", "己巳"}
+	run := func(sect int64, v vals) (interface{}, bool) {
+		leaf := func(fr *evalFrame, x ssa.Value) (interface{}, bool) {
+			if rc, f, ok := getterField(c, x); ok {
+				if _, o := fr.origin(rc); o == recv || structName(rc.Type()) == "EightChar" {
+					switch f {
+					case "EightChar.sect":
+						return sect, true
+					case "EightChar.lunar":
+						return absPtr{"lunar", false}, true
+					}
+				}
+			}
+			call, ok := x.(*ssa.Call)
+			if !ok || call.Common().StaticCallee() == nil {
+				return nil, false
+			}
+			callee := call.Common().StaticCallee()
+			if callee.Signature.Recv() == nil || structName(callee.Signature.Recv().Type()) != "Lunar" {
+				return nil, false
+			}
+			k := 0
+			if m := dayAccessor.FindStringSubmatch(callee.Name()); m != nil {
+				switch m[2] {
+				case "Exact":
+					k = v.e
+				case "Exact2":
+					k = v.e2
+				default:
+					k = v.p
+				}
+			} else if !strings.HasPrefix(callee.Name(), "Get") {
+				return nil, false
+			}
+			res := callee.Signature.Results()
+			if res.Len() != 1 {
+				return nil, false
+			}
+			switch {
+			case isIntType(res.At(0).Type()):
+				return int64(k), true
+			case isStringType(res.At(0).Type()):
+				return strs[k], true
+			}
+			return nil, false
+		}
+		ev := &evaluator{inline: inlineLibrary, leaf: leaf}
+		res, outcome := ev.run(fn, nil, nil, nil, nil)
+		if outcome != "return" || len(res) != 1 {
+			return nil, false
+		}
+		return res[0], true
+	}
+	base := vals{0, 2, 4}
+	var out []string
+	// the sect a new chart starts with (what NewEightChar stores, else the zero value) behaves as sect 2
+	initial := int64(0)
+	if ctor := c.FuncBy["calendar.NewEightChar"]; ctor != nil {
+		for _, b := range ctor.Blocks {
+			for _, ins := range b.Instrs {
+				if st, ok := ins.(*ssa.Store); ok {
+					if fa, ok := st.Addr.(*ssa.FieldAddr); ok && fieldKeyOf(fa) == "EightChar.sect" {
+						if k, ok := constInt(st.Val); ok {
+							initial = k
+						}
+					}
 				}
 			}
 		}
 	}
-	r.floor(rule, 10)
+	sects := []int64{1, 2}
+	if initial != 1 && initial != 2 {
+		sects = append(sects, initial)
+	}
+	for _, sect := range sects {
+		r0, ok0 := run(sect, base)
+		rE, ok1 := run(sect, vals{1, 2, 4})
+		rE2, ok2 := run(sect, vals{0, 3, 4})
+		rP, ok3 := run(sect, vals{0, 2, 5})
+		if !ok0 || !ok1 || !ok2 || !ok3 {
+			return "", false
+		}
+		if r0 != rP {
+			out = append(out, fmt.Sprintf("under sect %d the result changes with the plain day pillar (%v vs %v)", sect, r0, rP))
+		}
+		if sect != 1 && r0 != rE {
+			out = append(out, fmt.Sprintf("under sect %d the result changes with the early-rat day pillar (%v vs %v)", sect, r0, rE))
+		}
+		if sect == 1 && r0 != rE2 {
+			out = append(out, fmt.Sprintf("under sect %d the result changes with the late-rat day pillar (%v vs %v)", sect, r0, rE2))
+		}
+	}
+	return strings.Join(out, "; "), true
 }
 
 // onlyMergedWithSect2: every use of the call result is a phi whose other incoming
